@@ -306,10 +306,10 @@ pub fn def() -> PropertyDef {
         ],
         exhaustive: false,
         subs: vec![
-            str_sub::<R>((40_000, 1_500_000)),
-            str_sub::<F>((10_000, 200_000)),
-            prover_sub::<R>((400, 8000)),
-            prover_sub::<F>((1500, 40_000)),
+            str_sub::<R>((300_000, 3_000_000)),
+            str_sub::<F>((60_000, 500_000)),
+            prover_sub::<R>((1500, 12_000)),
+            prover_sub::<F>((8000, 80_000)),
             crate::fuzzdec::corpus_sub("decode"),
         ],
     }
